@@ -27,7 +27,10 @@ RULE = ("One evaluation = one seeded execution of two real Managers (the "
         "drawn gap; bulk_reconnect: bandwidth-limited path (token bucket "
         "in simulated time), 0.5-1 MB un-acked at a loss, re-sent on the "
         "replacement over 1.3-3 intervals with the transport pausing the "
-        "Outbound, peer answering at once. "
+        "Outbound, peer answering at once; pause_reconnect: the "
+        "Leader's application pauses its subchannel, the connection is "
+        "lost, the application resumes before the loss / in the gap / after "
+        "the replacement is up. "
         "Non-trivial: at least one ping/pong round trip happened and (a "
         "stall window was applied or a drop/stop occurred). Distinct: "
         "event-log digests among non-trivial runs.")
@@ -55,7 +58,7 @@ def configs(tier):
     return [{"regime": r} for r in ("responsive", "silent", "slow",
                                     "responsive", "silent", "stop", "loss",
                                     "reconnect_silent", "one_way",
-                                    "bulk_reconnect")]
+                                    "bulk_reconnect", "pause_reconnect")]
 
 
 def run_one(seed, tape, opts):
@@ -157,6 +160,8 @@ def run_one(seed, tape, opts):
                 sim.note("fault.cut")
                 sim.net.cut(eL.link)
         R.callLater(cut_at, do_cut)
+    if regime == "pause_reconnect":
+        return _pause_reconnect(seed, tape, w, interval, first_conn, eL, t_conn)
     if regime == "bulk_reconnect":
         return _bulk_reconnect(seed, tape, w, interval, first_conn, eL, t_conn)
     if regime == "one_way":
@@ -246,6 +251,98 @@ def run_one(seed, tape, opts):
 
 def _timer_pending(m):
     return m._timer is not None and m._timer.active()
+
+
+def _pause_reconnect(seed, tape, w, interval, first_conn, eL, t_conn):
+    """The Leader's application throttles its subchannel (pauseProducing)
+    around a connection loss and resumes at a drawn moment - before the loss,
+    during the gap, or after the replacement is up. Once it has resumed the
+    peer is responsive by construction and must not be dropped."""
+    sim = w.sim
+    L, F = w.leader, w.follower
+    R = sim.reactor
+    viol = []
+    L.listen("data")
+    rec = F.connect("data")
+    sim.run(4000, until=lambda: rec[1] != "pending" and any(
+        q.role == "acceptor" and q.made for q in L.protocols),
+        max_time=interval / 4)
+    acc = [q for q in L.protocols if q.role == "acceptor" and q.made]
+    if rec[1] != "ok" or not acc:
+        raise HarnessError("setup: subchannel not opened")
+    q = acc[0]
+    when = tape.pick(("before_loss", "in_gap", "in_gap", "after_replacement"),
+                     "resume_when")
+    state = {"paused": False, "resumed": False, "cut": False}
+
+    def pause():
+        q.transport.pauseProducing()
+        state["paused"] = True
+        sim.ev("app_pause")
+    R.callLater(interval * 0.1, pause)
+    cut_at = interval * tape.pick((0.2, 0.7, 1.3), "cut_at")
+
+    def resume():
+        if state["paused"] and not state["resumed"]:
+            state["resumed"] = True
+            q.transport.resumeProducing()
+            sim.ev("app_resume", when)
+
+    def do_cut():
+        if when == "before_loss":
+            resume()
+        if eL.link.up:
+            state["cut"] = True
+            sim.ev("cut")
+            sim.note("fault.cut")
+            sim.net.cut(eL.link)
+    R.callLater(cut_at, do_cut)
+
+    def tick():
+        if when == "in_gap" and state["cut"] and L.m._connection is None:
+            resume()
+    sim.after_step = tick
+
+    def replaced():
+        c = L.m._connection
+        return c is not None and c is not first_conn and w.both_connected()
+    sim.run(30000, until=replaced, max_time=cut_at + 6 * interval)
+    if not replaced():
+        raise HarnessError("pause_reconnect: no replacement connection")
+    resume()                       # "after_replacement" (or a late gap)
+    c2 = L.m._connection
+    e2 = w.l2_end[c2]
+    t2 = sim.now()
+    dropped = [None]
+
+    def watch():
+        if dropped[0] is None and (not e2.alive or e2.transport.disconnecting):
+            dropped[0] = sim.now()
+            sim.ev("leader_dropped_replacement")
+    sim.after_step = watch
+    sim.run(30000, until=lambda: dropped[0] is not None,
+            max_time=5 * interval)
+    watch()
+    w.finish()
+    if dropped[0] is not None:
+        viol.append({"key": "C16.responsive_dropped_after_app_pause",
+                     "clause": "a connection whose peer answers every ping "
+                     "within one interval is never dropped by the monitor",
+                     "detail": "interval %.1f: application paused its "
+                     "subchannel at +%.2f, connection lost at +%.2f, resumed "
+                     "%s; the responsive replacement was dropped %.2f s after "
+                     "it was selected (read-paused: %s)" %
+                     (interval, 0.1 * interval, cut_at, when,
+                      dropped[0] - t2, e2.read_paused)})
+    return {"violation": viol[0] if viol else None, "nontrivial": True,
+            "digest": sim.hexdigest(), "trace": sim.trace,
+            "stats": {"steps": sim.steps, "sim_s": sim.now() - 1000.0,
+                      "notes": sim.notes},
+            "sample": {"seed": seed, "regime": "pause_reconnect",
+                       "interval": interval, "cut_at": cut_at,
+                       "resume_when": when,
+                       "dropped_at": None if dropped[0] is None else
+                       round(dropped[0] - t2, 3)}}
 
 
 def _bulk_reconnect(seed, tape, w, interval, first_conn, eL, t_conn):
